@@ -92,6 +92,10 @@ class Wrapp(util.WrapperMixin):
         self.patterns = self.newlibrary.patterns
         self.config = config
         self.log = config.log
+        # Start each library with empty tables,
+        # the class attributes would be shared by all instances.
+        self.capsule_code = {}
+        self.capsule_order = []
         self._init_splicer(splicers)
         self.comment = "//"
         self.cont = ""
